@@ -42,6 +42,17 @@ CLAIMED = {
 }
 
 CLAIMED.update({
+    "C03": dict(
+        text="IprStrings.tla (R-level): per-Lexicon map word -> String, immutable content, empty and reserved words shared "
+             "process-wide. TLC enumerates every sequence of 4 (quick) / 5 (thorough) intern requests over two Lexicons and 8 "
+             "words, replayed with identity and content of every String compared after every step. Arena.tla (I-level) is "
+             "checked exhaustively with scaled constants and, with the real constants, generates length sequences around "
+             "'exactly fills the pool', replayed and validated by the trace spec. A recorded sweep (all reserved words and near "
+             "misses, all byte values, NULs, unterminated sources, roll-over/oversize lengths, random history with "
+             "re-observation) is validated line by line, once plain and once under ASan/UBSan.",
+        ref="DESIGN.md §3 C03", tech="TLA+ IprStrings/Arena: exhaustive TLC behaviours replayed, I-level boundary generation, trace validation (also under ASan)",
+        note="Trusted: TLC, the reserved-word list in spec/IprKnownWords.tla (a lower bound), harness/strings.cxx, ASan for "
+             "invalidation. Words >64 bytes are compared by length + FNV-1a/64. Equal-hash bucket chains are not constructible."),
     "C08": dict(
         text="RBTree.tla transcribes descend/insert/fix-up/rotations (I-level) and states the red-black search-tree "
              "predicates (R-level). TLC checks I=>R for all insertion orders over 7 (quick) / 9 (thorough) keys, enumerates "
